@@ -517,6 +517,7 @@ func fatTraceBytes(behs [][]map[string]any) ([]byte, []int) {
 		first = append(first, line+1)
 		for _, ev := range evs {
 			js, _ := json.Marshal(ev)
+			js = bytes.ReplaceAll(js, []byte(":null"), []byte(":[]")) // TLC's Json module has no null
 			buf.Write(js)
 			buf.WriteByte('\n')
 			line++
